@@ -15,9 +15,8 @@
   Clauses:
     * `key_total`     (T)  the sort key `_get_key` induces a strict total order on ALL expressions
     * `canon_perm`    (T)  presentation invariance, for ALL expressions and orderings
-    * `canon_idem`    (T)  idempotence, for well-scoped expressions (the quantifier of C10) under every ordering handed to
-                           `canonicalize` (which re-sorts it); for expressions outside `WellScoped` (several worlds in one
-                           leaf, repeated names, Q-factors) the clause is OPEN and rests on correspondence + the direct oracle
+    * `canon_idem`    (T)  idempotence, for ALL expressions, under every ordering handed to `canonicalize` (which
+                           re-sorts it by variable name; the hypothesis is necessary, see the counterexample in section 3)
 -/
 import Y0.Lemmas.CanonIdem
 
@@ -70,27 +69,27 @@ example : Present
 
 /-! ## 3. idempotence -/
 
-/-- **`canon_idem`**: canonicalising a canonical form returns it unchanged — for every well-scoped expression and every
-ordering as `canonicalize` uses it (`ensure_ordering` re-sorts an explicit ordering by variable name).  The proof
+/-- **`canon_idem`**: canonicalising a canonical form returns it unchanged — for EVERY expression (no scoping hypothesis)
+and every ordering as `canonicalize` uses it (`ensure_ordering` re-sorts an explicit ordering by variable name).  The proof
 characterises canonical forms syntactically (`IsCanon`: sorted leaves; flat, sorted, One/Zero-free products; sums on which
 `Sum.simplify` has nothing left to do; fractions with canonical non-fraction parts whose trivial cases have been collapsed)
 and shows that the canonicaliser produces them and leaves them alone.  It is the audit of the fraction branch that found
 the two idempotence defects fixed by 0a6fecc and c2bdc86. -/
-theorem canon_idem {o : List Var} {e a : Expr} (hws : WellScoped e = true)
-    (h : canon (upgradeOrdering o) e = .ok a) : canon (upgradeOrdering o) a = .ok a :=
-  canonL_idem (nameMonotone_levelOf o) hws h
+theorem canon_idem {o : List Var} {e a : Expr} (h : canon (upgradeOrdering o) e = .ok a) :
+    canon (upgradeOrdering o) a = .ok a :=
+  canonL_idem (nameMonotone_levelOf o) h
 
 /-- the public entry point with an explicit ordering -/
-theorem canonicalize_idem {o : List Var} {e a : Expr} (hws : WellScoped e = true)
-    (h : canonicalize e (some o) = .ok a) : canonicalize a (some o) = .ok a :=
-  canon_idem hws h
+theorem canonicalize_idem {o : List Var} {e a : Expr} (h : canonicalize e (some o) = .ok a) :
+    canonicalize a (some o) = .ok a :=
+  canon_idem h
 
 /-- canonical forms are exactly the fixed points: `IsCanon` is necessary and sufficient -/
-theorem canon_fixed_iff {lvl : Name → Option Nat} (hm : NameMonotone lvl) {S : List Name} {a : Expr}
-    (hw : Expr.wss S a = true) : canonL lvl a = .ok a ↔ IsCanon lvl a :=
-  ⟨fun h => isCanon_canonL hm a a hw h, canonL_of_isCanon a⟩
+theorem canon_fixed_iff {lvl : Name → Option Nat} (hm : NameMonotone lvl) {a : Expr} :
+    canonL lvl a = .ok a ↔ IsCanon lvl a :=
+  ⟨fun h => isCanon_canonL hm a a h, canonL_of_isCanon a⟩
 
-/-- leaves of ANY expression (no scoping hypothesis, any ordering): sorting sorted children / parents again changes nothing -/
+/-- leaves, under ANY ordering (monotone or not): sorting sorted children / parents again changes nothing -/
 theorem canon_idem_leaf {o : List Var} {pop : Option Var} {c p : List Var} {a : Expr}
     (h : canon o (.prob pop c p) = .ok a) : canon o a = .ok a := by
   unfold canon at *
@@ -114,9 +113,11 @@ example : canon [Var.plain 0, Var.plain 1]
         (.prob none [Var.plain 1] []))) = .ok .one := by rfl
 example : canon [Var.plain 0, Var.plain 1] (.frac (.prob none [Var.plain 0] []) (.frac .one (.prob none [Var.plain 1] []))) =
     .ok (.prod [.prob none [Var.plain 0] [], .prob none [Var.plain 1] []]) := by rfl
-/-- non-vacuity of `canon_idem`: a well-scoped expression with a sum that is partially marginalised and a compound fraction -/
-example : WellScoped (.frac (.sum (.prob none [Var.plain 0, Var.plain 1] []) [Var.plain 0, Var.plain 2])
-    (.frac .one (.prob none [Var.plain 1] [Var.plain 2]))) = true := by decide
+/-- non-vacuity of `canon_idem`: a sum that is partially marginalised over a compound fraction, canonicalised twice -/
+example : (canon (upgradeOrdering [Var.plain 2, Var.plain 0, Var.plain 1])
+      (.frac (.sum (.prob none [Var.plain 1, Var.plain 0] []) [Var.plain 0, Var.plain 2])
+        (.frac .one (.prob none [Var.plain 1] [Var.plain 2])))) =
+    .ok (.prod [.prob none [Var.plain 1] [Var.plain 2], .sum (.prob none [Var.plain 1] []) [Var.plain 2]]) := by rfl
 /-- the hypothesis "monotone in the name" is necessary: with the unsorted level table of `[B, A]` the canonical form of
 `Sum[C](P(A, B, C))` is `P(B, A)`-ordered by level but `Sum.simplify` re-sorts the kept children by name -/
 example : canon [Var.plain 1, Var.plain 0, Var.plain 2]
@@ -124,12 +125,5 @@ example : canon [Var.plain 1, Var.plain 0, Var.plain 2]
     .ok (.prob none [Var.plain 0, Var.plain 1] []) := by rfl
 example : canon [Var.plain 1, Var.plain 0, Var.plain 2] (.prob none [Var.plain 0, Var.plain 1] []) =
     .ok (.prob none [Var.plain 1, Var.plain 0] []) := by rfl
-
--- OPEN: canon_idem_all (idempotence without the `WellScoped` hypothesis)
---   theorem canon_idem_all {o : List Var} {e a : Expr} (h : canon (upgradeOrdering o) e = .ok a) :
---       canon (upgradeOrdering o) a = .ok a
--- `WellScoped` is used in one place only: the leaf that `Sum.simplify` keeps must have pairwise distinct names so that its
--- `_variable_sort_key` order coincides with the level order.  Outside it the clause rests on the correspondence check
--- plus the direct oracle (canonicalise twice on the real code, 30% wild expressions, every run).
 
 end Y0.C11
